@@ -133,9 +133,9 @@ fn signed_zero_probe<T: Sc>(rep: &mut Report) {
                     let e1 = [-1.0 * sign, 3.0];
                     let mut worst = 0.0f64;
                     for j in 0..2 {
-                        worst = worst.max((c[j].to64() - e0[j]).abs());
+                        worst = nmax(worst, (c[j].to64() - e0[j]).abs());
                         if mrhs {
-                            worst = worst.max((c[2 + j].to64() - e1[j]).abs());
+                            worst = nmax(worst, (c[2 + j].to64() - e1[j]).abs());
                         }
                     }
                     rep.check("C01", worst <= T::tol(), worst, || det("coefficients are not the optimum for the parameters in effect (sign of a zero parameter)"));
@@ -216,7 +216,7 @@ fn many_functions_probe<T: Sc>(rep: &mut Report) {
                             fit += phi[(i, j)] * cm[(j, q)].to64();
                         }
                         rr[i] = wi(i) * (y[(i, q)].to64() - fit);
-                        worst_r = worst_r.max((r[q * n + i].to64() - rr[i]).abs() / ymax);
+                        worst_r = nmax(worst_r, (r[q * n + i].to64() - rr[i]).abs() / ymax);
                     }
                     // normal equations: (W Phi)^T r = 0
                     for j in 0..m {
@@ -226,7 +226,7 @@ fn many_functions_probe<T: Sc>(rep: &mut Report) {
                             dot += wi(i) * phi[(i, j)] * rr[i];
                             nrm += (wi(i) * phi[(i, j)]).powi(2);
                         }
-                        worst_ne = worst_ne.max(dot.abs() / (nrm.sqrt() * ymax * (n as f64).sqrt()));
+                        worst_ne = nmax(worst_ne, dot.abs() / (nrm.sqrt() * ymax * (n as f64).sqrt()));
                     }
                 }
                 // C03 certificates: every Jacobian column is orthogonal to the weighted basis functions, and
@@ -243,7 +243,7 @@ fn many_functions_probe<T: Sc>(rep: &mut Report) {
                                 dot += wi(i) * phi[(i, j)] * jm[(q * n + i, 0)].to64();
                                 nrm += (wi(i) * phi[(i, j)]).powi(2);
                             }
-                            worst_orth = worst_orth.max(dot.abs() / (nrm.sqrt() * jn));
+                            worst_orth = nmax(worst_orth, dot.abs() / (nrm.sqrt() * jn));
                         }
                     }
                     rep.check("C03", worst_orth <= 1e-9, worst_orth, || det("a Jacobian column is not orthogonal to the range of the weighted basis matrix", worst_orth));
@@ -324,11 +324,11 @@ fn many_columns_probe<T: Sc>(rep: &mut Report) {
                 let scale = y.column(q).iter().fold(0.0f64, |mx, v| mx.max(v.to64().abs())).max(1e-300);
                 let mut d = 0.0f64;
                 for j in 0..m {
-                    d = d.max((cm[(j, q)].to64() - cs[(j, 0)].to64()).abs() / scale);
+                    d = nmax(d, (cm[(j, q)].to64() - cs[(j, 0)].to64()).abs() / scale);
                 }
                 for i in 0..n {
-                    d = d.max((rm[q * n + i].to64() - rs[i].to64()).abs() / scale);
-                    d = d.max((jm[(q * n + i, 0)].to64() - js[(i, 0)].to64()).abs() / (scale * 10.0));
+                    d = nmax(d, (rm[q * n + i].to64() - rs[i].to64()).abs() / scale);
+                    d = nmax(d, (jm[(q * n + i, 0)].to64() - js[(i, 0)].to64()).abs() / (scale * 10.0));
                 }
                 if d > worst {
                     worst = d;
@@ -911,7 +911,7 @@ fn run_inst<T: Sc>(line: &Line, idx: usize, pools: &Pools, opts: &Opts, rep: &mu
                             let scale = if all || j == jcol { (2.0f64).powi(-sexp) } else { 1.0 };
                             let e = pt.cn[j][s] as f64 / pt.d as f64 * scale;
                             // relative to the magnitude this coefficient row has
-                            wc = wc.max((c[(j, s)].to64() - e).abs() / (scale * (pt.cn[j][s] as f64 / pt.d as f64).abs().max(1.0)));
+                            wc = nmax(wc, (c[(j, s)].to64() - e).abs() / (scale * (pt.cn[j][s] as f64 / pt.d as f64).abs().max(1.0)));
                         }
                     }
                     rep.check("C01", wc <= 1e-5, wc, || det("coefficients of the column-scaled twin", wc));
@@ -1308,7 +1308,7 @@ fn check_finish<T: Sc>(inst: &Inst<T>, qi: usize, fin: &Finish<T>, ev: EpsVar, f
                                 acc += t;
                                 mag = mag.max(t.abs());
                             }
-                            worst = worst.max((bf[(i, s)].to64() - acc).abs() / mag);
+                            worst = nmax(worst, (bf[(i, s)].to64() - acc).abs() / mag);
                         }
                     }
                     let fin_ok = c.iter().all(|v| v.to64().is_finite());
@@ -1383,12 +1383,65 @@ fn nan_parameter_probe<T: Sc>(rep: &mut Report) {
     }
 }
 
+/// C01: subnormal numbers are finite numbers.  A basis function that decays into the subnormal range
+/// inside the sample window (exp(-t/tau) far out) evaluates like any other.
+fn subnormal_probe<T: Sc>(rep: &mut Report) {
+    let (s1, s2) = if T::NAME == "f64" { (1e-310f64, 5e-320) } else { (1e-40f64, 1e-44) };
+    let col0 = [1.0, 1e-3, 1e-8, s1, s2, 0.0];
+    let n = col0.len();
+    if T::of64(s1).to64() == 0.0 || T::of64(s2).to64() == 0.0 {
+        rep.tool_error("subnormal probe: values are not representable".into());
+        return;
+    }
+    let entry = TableEntry {
+        a: vec![0],
+        phi: DMatrix::from_fn(n, 2, |i, j| T::of64(if j == 0 { col0[i] } else { 1.0 })),
+        dphi: vec![DMatrix::from_fn(n, 2, |i, j| T::of64(if j == 0 { -(i as f64) * col0[i] } else { 0.0 }))],
+    };
+    let table = Arc::new(Table { n, m: 2, p: 1, entries: vec![entry] });
+    for (mrhs, par, weighted) in [(false, false, false), (true, false, true), (false, true, true), (true, true, false)] {
+        let w: Option<Vec<T>> = if weighted { Some((0..n).map(|i| T::of64(1.0 + (i % 2) as f64)).collect()) } else { None };
+        let y = DMatrix::from_fn(n, if mrhs { 2 } else { 1 }, |i, q| T::of64(T::of64(col0[i]).to64() * (3.0 - q as f64) + 2.0));
+        let flav = format!("subnormal probe {} mrhs={} par={} weighted={}", T::NAME, mrhs, par, weighted);
+        let det = |what: &str, dv: f64| json!({"flavour": flav, "what": what, "dev": dv});
+        let built = catch_unwind(AssertUnwindSafe(|| build_problem(TableModel::new(table.clone(), &[0]), mrhs, par, &y, w.as_deref(), None)));
+        let prob = match built {
+            Ok(Ok(p)) => p,
+            Ok(Err(_)) => {
+                rep.tool_error(format!("cannot build {flav}"));
+                continue;
+            }
+            Err(_) => {
+                rep.violation("C08", det("building the problem panicked", 0.0));
+                continue;
+            }
+        };
+        let o = observe(prob.as_ref());
+        match (&o.cm, &o.r, &o.jm) {
+            (Some(c), Some(r), Some(_)) => {
+                let mut worst = 0.0f64;
+                for q in 0..c.ncols() {
+                    worst = nmax(worst, (c[(0, q)].to64() - (3.0 - q as f64)).abs());
+                    worst = nmax(worst, (c[(1, q)].to64() - 2.0).abs());
+                }
+                rep.check("C01", worst <= T::tol(), worst, || det("coefficients are not the optimum (basis function with subnormal values)", worst));
+                let rmax = r.iter().fold(0.0f64, |m, v| nmax(m, v.to64().abs()));
+                rep.check("C02", rmax <= T::tol() * 10.0, rmax, || det("residuals do not vanish for data the model reproduces", rmax));
+            }
+            _ => rep.violation("C01", det("coefficients / residuals / Jacobian absent although every value of the model is a finite number (some are subnormal)", 0.0)),
+        }
+        rep.count("subnormal_probes", 1);
+    }
+}
+
 /// the probes beyond the enumerated universe (also available on their own: subcommand `probes`)
 pub fn run_probes(total: &mut Report) {
     signed_zero_probe::<f64>(total);
     signed_zero_probe::<f32>(total);
     nan_parameter_probe::<f64>(total);
     nan_parameter_probe::<f32>(total);
+    subnormal_probe::<f64>(total);
+    subnormal_probe::<f32>(total);
     many_functions_probe::<f64>(total);
     many_columns_probe::<f64>(total);
     many_columns_probe::<f32>(total);
